@@ -47,6 +47,7 @@ func init() {
 			{"valtab", "A5", 2, "out-of-range shift counts are errors"},
 			{"valtab", "A6", 1, "no shift by a possibly negative signed count"},
 			{"vmshape", "V3", 70, "the VM hands the operands to the operator in (left, right) order with the opcode of the instruction"},
+			{"vmshape", "V5", 3, "the increment instruction applies the same '+' (Arith ADD with the integer 1) as the general form"},
 		},
 		Technique:  "abstract interpretation of every operator method of package value over all kind pairs with symbolic payloads; the extracted case table is compared with the documented algebra written as data",
 		Decides:    "for all operand values: which cases every operator distinguishes on every pair of operand kinds, the Go primitive and conversions applied in each, the error class of every other pair, the zero-divisor guard, symmetry of == and != as its negation, and the exact index bounds; the VM side binding of operands to receiver/argument.",
@@ -105,6 +106,7 @@ func init() {
 			{"own", "O2", 12, "forked contexts own their closure stack and value stack"},
 			{"own", "O4", 8, "recycled contexts are re-initialised and long enough"},
 			{"own", "O8", 20, "new locals are nil-initialised whatever the stack held before"},
+			{"vmshape", "V8", 60, "what a yield leaves on the stack does not depend on the dynamic context (enclosing loop or not)"},
 		},
 		Technique:  "abstract interpretation of the VM handlers FUNC/CALL/RET and of memory.Clone/PushFrame; provenance of captured slices",
 		Decides:    "only the storage mechanisms the property is anchored in: where captured aliases of the growing value stack originate (exactly one site, a known finding), that a function value is detached from the frame it was created on when it is returned, that recycled or forked memories cannot leak earlier state into a call (own storage, nil-initialised locals, full re-initialisation).",
@@ -203,6 +205,9 @@ func init() {
 			{"vmshape", "T1", 60, "every declared opcode has a case clause; an unknown one aborts"},
 			{"valtab", "A1", 900, "each operator method applies the documented primitive with int->float promotion on mixed pairs"},
 			{"grammar", "T2", 20, "every operator the grammar accepts is wrapped and has a compiler case"},
+			{"strw", "S2", 15, "names resolve as the language defines (own, enclosing, global)"},
+			{"strw", "S3", 6, "assignment targets and their right-hand sides resolve as the language defines"},
+			{"strw", "S4", 2, "function literals open the scope the language defines"},
 		},
 		Technique:  "abstract interpretation of the compiler with tabulated child summaries (inductive over the tree), symbolic effect summaries of every VM handler, operator table of package value; relational comparison of what is emitted with what is accepted",
 		Decides:    "for all programs (all trees of the class table under all reachable flag contexts): emitted instruction shapes are accepted by the VM; operator identity lexeme -> opcode -> value method -> primitive; children compiled in source order into the operand slots the VM pops in reverse; every node's code is stack neutral up to its announced result; jumps resolve inside the node's code; tmp is read only while valid.",
@@ -238,6 +243,9 @@ func init() {
 			{"valtab", "A7", 21, "rendering any value cannot abort"},
 			{"grammar", "G4", 14, "parser transformers and literal conversion cannot abort"},
 			{"vmshape", "V4", 90, "operator errors become dumpStack + returned error"},
+			{"own", "O5", 2, "the value stack is grown before a slot above sp is written (no index out of range in Push)"},
+			{"own", "O5c", 2, "growStack appends at least the requested size (no index out of range in PushFrame)"},
+			{"own", "O4", 8, "a recycled context memory is long enough for the frame copied into it"},
 		},
 		Technique:  "abort-site inventory over the SSA of all packages with per-site discharge by the verdicts of the exhaustive abstract explorations (compiler, operator table, grammar shapes, lexer automaton)",
 		Decides:    "every explicit abort (panic, log.Panic*, log.Fatal*, os.Exit), unchecked type assertion and non-constant integer division in the module is either unreachable for parseable programs (by a named rule that reports a violation whenever its exploration reaches an abort), documented behaviour (exit) or an environment failure; operators never abort on any kind pair.",
@@ -282,6 +290,7 @@ func init() {
 			{"bcai", "B1", 25, "no position-dependent operand kind the VM rejects"},
 			{"vmshape", "V5", 3, "INC computes operand+1 with the same method as '+' and stores like MOV"},
 			{"vmshape", "V10", 30, "JMPF and JMPT both demand a boolean; operator errors pass through unchanged"},
+			{"vmshape", "V8", 60, "a used yield leaves its value whether or not a loop encloses it"},
 		},
 		Technique:  "all (node type x flag context) variants of the compiler checked against the same summaries; sibling comparison of VM handlers",
 		Decides:    "context independence of the protocol: for every node type, every flag context reachable from the roots yields code that delivers the node's value where its descriptor says, tests conditions, and keeps tmp valid; INC is Arith(ADD,1) stored like MOV; both conditional jumps type-check.",
@@ -295,6 +304,7 @@ func init() {
 			{"vmshape", "V10", 30, "aton of a non-string is a type error, an unconvertible string a conversion error; wrong arity is an arity error, a non-function callee a type error"},
 			{"vmshape", "V7", 6, "argument count is checked before the frame is pushed"},
 			{"valtab", "A7", 21, "rendering is total for every kind of value"},
+			{"valtab", "A8", 1, "floats are rendered with the shortest representation that reads back to the same value"},
 			{"bcai", "B1", 25, "the builtin trees compile to instructions the VM accepts (they are part of the class table)"},
 		},
 		Technique:  "symbolic effect of the builtin opcodes' handlers",
@@ -310,6 +320,8 @@ func init() {
 			{"bcai", "B7", 25, "debug info is keyed by the address of the CALL (the return address the stack dump looks up), with the right argument count"},
 			{"own", "O8", 20, "a forked context receives the whole top frame including the return address slot the stack dump reads"},
 			{"valtab", "A7", 21, "rendering operand values in the report cannot fail"},
+			{"vmshape", "V6", 50, "every context records the memory it runs on, so the report walks the right stacks"},
+			{"vmshape", "V8", 60, "a forked or recycled context is set up with its parent and its memory before anything can fail in it"},
 		},
 		Technique:  "abstract interpretation of vm.Run per opcode; assertions on the error-return paths",
 		Decides:    "on every path of every opcode handler that ends the run with an error, the report function receives the current context, the ip of the failing instruction, the error that is returned and exactly the operand values fetched on that path in slot order; failures detected by the VM itself use the documented class.",
